@@ -130,6 +130,9 @@ def _dt(seconds, micro, kind, offset_min):
     if kind == 'naive':
         y, mo, d, h, mi, s = canon.utc_fields(seconds)
         return datetime.datetime(y, mo, d, h, mi, s, micro)
+    if kind == 'nulltz':     # tzinfo present but utcoffset() is None: still naive
+        y, mo, d, h, mi, s = canon.utc_fields(seconds)
+        return datetime.datetime(y, mo, d, h, mi, s, micro, tzinfo=canon.NULLTZ)
     if kind == 'utc':
         y, mo, d, h, mi, s = canon.utc_fields(seconds)
         return datetime.datetime(y, mo, d, h, mi, s, micro,
@@ -146,7 +149,7 @@ def epoch_seconds_st():
                          MAX_TS - 1, MAX_TS, 1700000000]))
 
 
-def datetimes(kinds=('naive', 'utc', 'offset')):
+def datetimes(kinds=('naive', 'utc', 'offset', 'nulltz')):
     """instants epoch..2106-02-07T06:28:15, with microseconds"""
     return st.builds(
         _dt, epoch_seconds_st(),
